@@ -23,7 +23,7 @@ from symx.harness import Harness
 ASSUMPTIONS = [
     "the estimator is a real BaseGridder subclass that records every fit and predicts an uninterpreted function of its identity and the location (so a score names the model it came from)",
     "sklearn's scorer is replaced by the closed forms of r2 / neg_mean_squared_error (any other scorer: an uninterpreted function of predictions, truth and weights); the replay uses the real scikit-learn scorers",
-    "KFold / ShuffleSplit / clone run for real with concrete seeds; the delayed graph is computed with dask's synchronous scheduler (task-order independence is argued from the absence of shared state: every task gets its own clone and freshly indexed arrays)",
+    "KFold / ShuffleSplit / clone run for real with concrete seeds; the delayed graph is computed with dask's synchronous scheduler in the given and in the reversed task order (beyond that, task-order independence is argued from the absence of shared state: every task gets its own clone and freshly indexed arrays)",
     "denominator of r2 is assumed non-zero (test data not all equal) in the symbolic run",
 ]
 
@@ -123,7 +123,11 @@ def h_cross_val_score(ctx):
             import dask
 
             ctx.claim("delayed=True returns one delayed object per split", len(scores) == len(splits) and all(hasattr(s, "compute") for s in scores))
-            scores = np.asarray(dask.compute(*scores, scheduler="synchronous"))
+            if cfg.get("reverse"):
+                # another task order: the last split's task is computed first
+                scores = np.asarray(dask.compute(*scores[::-1], scheduler="synchronous")[::-1])
+            else:
+                scores = np.asarray(dask.compute(*scores, scheduler="synchronous"))
     ctx.claim("one score per split", np.shape(scores) == (len(splits),))
     ctx.claim("the estimator passed in is left unfitted and unchanged", And(not hasattr(est, "fitno_"), not hasattr(est, "region_"), est.get_params() == {"ident": 3, "ncomp": ncomp}, len(gridders.fits_of(est)) == 0))
     clones = _clones(est)
@@ -290,7 +294,12 @@ def h_splinecv(ctx):
     try:
         with warnings.catch_warnings():
             warnings.simplefilter("ignore")
-            scv = vd.SplineCV(dampings=dampings, cv=KFold(n_splits=2, shuffle=True, random_state=1), delayed=cfg.get("delayed", False))
+            if cfg.get("set_params"):
+                # the grid is changed after construction: fit must search the current grid
+                scv = vd.SplineCV(dampings=(1000.0, 10.0, 7.0, 3.0), cv=KFold(n_splits=2, shuffle=True, random_state=1), delayed=cfg.get("delayed", False))
+                scv.set_params(dampings=dampings)
+            else:
+                scv = vd.SplineCV(dampings=dampings, cv=KFold(n_splits=2, shuffle=True, random_state=1), delayed=cfg.get("delayed", False))
             scv.fit((e, n), d)
     finally:
         vsp.cross_val_score = old
@@ -330,6 +339,7 @@ def _cfg_cvs(tier, seed):
         {"n": 4, "cv": "kfold", "n_splits": 2, "seed": 0, "scoring": None},
         {"n": 5, "cv": "kfold", "n_splits": 2, "seed": 3, "scoring": "neg_mean_squared_error", "weighted": True, "ncomp": 2},
         {"n": 4, "cv": "shuffle", "n_splits": 2, "seed": 1, "scoring": "r2", "weighted": True, "delayed": True, "shape": (2, 2)},
+        {"n": 5, "cv": "kfold", "n_splits": 2, "seed": 6, "scoring": "neg_mean_squared_error", "weighted": True, "delayed": True, "reverse": True},
         {"n": 5, "cv": "kfold", "n_splits": 2, "seed": 2, "scoring": "neg_mean_absolute_error", "weighted": True},
         {"n": 6, "cv": "kfold", "n_splits": 2, "seed": 4, "scoring": "neg_mean_squared_error", "weighted": True, "shape": (2, 3), "fortran": True},
     ]
@@ -367,7 +377,7 @@ HARNESSES = [
     Harness(
         "splinecv",
         h_splinecv,
-        lambda tier, seed: [{"dampings": (1e-3, 1e-1), "delayed": True}] + ([{"dampings": (1e-2, 1e-4, 1.0), "delayed": True}, {"dampings": (1e-3, 1e-1)}] if tier == "thorough" else []),
+        lambda tier, seed: [{"dampings": (1e-3, 1e-1), "delayed": True}, {"dampings": (1e-2, 1.0), "set_params": True}] + ([{"dampings": (1e-2, 1e-4, 1.0), "delayed": True}, {"dampings": (1e-3, 1e-1)}] if tier == "thorough" else []),
         bounds="concrete 6-point layout, symbolic data; 2-3 damping candidates; the cross-validation scores of each candidate are arbitrary symbolic vectors (2 splits)",
         stubs=["verde.spline.cross_val_score -> symbolic score vectors (symbolic run)", "sklearn -> contracts"],
         extra_globals=_globals,
